@@ -21,7 +21,8 @@ RULE = (
     "Cases = (C09-G2 schema with 0-2 injected rule violations — general or plug-in, any position —, generator in "
     "{dbc, can_c, cpp, nop}, entry point in {GeneratorManager.generate, `fcp generate` CLI via click's CliRunner}, "
     "pre-existing output directory content: random files, files named like would-be outputs (empty, short, or far longer than "
-    "the new contents), *.c/*.h, a sub-directory). "
+    "the new contents), *.c/*.h, a sub-directory, or the output of a previous generation from a sibling schema whose frame "
+    "ids differ in one digit (same file names and sizes, different bytes)). "
     "Oracle: (a) when the reference predicate (or, where it is silent, the library's own verifier run separately) rejects: "
     "the result is Err / the command prints an error without raising, and the directory snapshot (names, bytes) is "
     "unchanged; (b) when it accepts and the plug-in returns: the set of files created or modified == the paths returned by "
@@ -34,7 +35,7 @@ ASSUMPTIONS = [
     "when all checks pass but the plug-in itself raises, only 'nothing is created or modified' is required",
     "the recording wrapper around <plugin>.Generator.generate is installed from outside (no source hook)",
 ]
-FLOORS = {"reject": 0.25, "accept": 0.15, "reject_would_write": 0.15, "accept_collision": 0.02, "entry_cli": 0.2,
+FLOORS = {"regenerated_over_sibling_output": 0.15, "reject": 0.25, "accept": 0.15, "reject_would_write": 0.15, "accept_collision": 0.02, "entry_cli": 0.2,
           "gen_dbc": 0.1, "gen_can_c": 0.1, "gen_cpp": 0.1, "gen_nop": 0.1}
 
 GENERATORS = ["dbc", "can_c", "cpp", "nop"]
@@ -93,6 +94,11 @@ def case(draw):
     # stale files may be shorter or much longer than what the generator writes over them
     pre_files = {n: draw(st.sampled_from(["", "old contents\n", "#include <x>\n", "/* stale */\n" * 6000])) for n in pre}
     missing_dir = draw(st.integers(0, 5)) == 0 and not pre_files
+    # a history: the directory was first filled by generating from a sibling schema whose ids differ in one digit
+    # (stale files of the same names and the same sizes as the fresh ones)
+    if not missing_dir and draw(st.integers(0, 2)) == 0:
+        pre_files = dict(pre_files)
+        pre_files["__pregen__"] = "1"
     return s, inj, gen, entry, pre_files, missing_dir
 
 
@@ -123,8 +129,29 @@ def run_case(s: M.Schema, gen: str, entry: str, pre_files: Dict[str, str], missi
         schema_path = sc.path("schema.fcp")
         with open(schema_path, "w") as f:
             f.write(text)
+        pregen = "__pregen__" in pre_files
+        pre_files = {k: v for k, v in pre_files.items() if k != "__pregen__"}
         if not missing_dir:
             os.makedirs(out_dir)
+            if pregen:
+                import copy
+
+                sib = copy.deepcopy(s)
+                for im in sib.impls:
+                    nf = []
+                    for k, v in im.fields:
+                        if k == "id" and isinstance(v, int):
+                            v = v + 1 if len(str(v + 1)) == len(str(v)) else v - 1
+                        nf.append((k, v))
+                    im.fields = nf
+                fsib, _ts, _es = frontend.parse_schema(sib)
+                if fsib is not None:
+                    try:
+                        with contextlib.redirect_stdout(io.StringIO()):
+                            GeneratorManager(make_general_verifier()).generate(gen, None, None, fsib, out_dir)
+                    except BaseException:
+                        pass
+                info["pregenerated"] = True
             for n, c in pre_files.items():
                 p = os.path.join(out_dir, n)
                 os.makedirs(os.path.dirname(p), exist_ok=True)
@@ -241,6 +268,8 @@ def run_shard(ctx: Ctx) -> None:
             cl.append("plugin_failed")
         if missing_dir:
             cl.append("missing_out_dir")
+        if info.get("pregenerated"):
+            cl.append("regenerated_over_sibling_output")
         rec.cls(*cl)
         text = printer.to_text(s)
         if "reject_would_write" in cl or coll:
